@@ -124,6 +124,14 @@ def fam_c11(R, n):
                 attrs = ['#[logos(subpattern s0 = %s)]' % rust_str(inner), '#[logos(subpattern s1 = %s)]' % rust_str(outer)]
                 out.append(dict(family='c11-nested', src=enum(attrs, ['#[regex(%s, priority = 3)] A,' % rust_str(pat), '#[regex(%s, priority = 2)] B,' % rust_str(ref)]),
                                 meta=dict(pair=(0, 1), pattern=pat, reference=ref)))
+    # references next to escapes: an escaped backslash or an escaped parenthesis directly before (?&name)
+    for inner in ['[0-7]', 'ab|cd']:
+        for shape in ['\\\\(?&s0)', '\\\\(?&s0){1,3}', 'a\\\\(?&s0)b', '\\((?&s0)\\)', '[(](?&s0)', '\\\\\\\\(?&s0)', 'x\\.(?&s0)']:
+            pat = shape
+            ref = shape.replace('(?&s0)', '(?u:%s)' % inner)
+            attrs = ['#[logos(subpattern s0 = %s)]' % rust_str(inner)]
+            out.append(dict(family='c11-escapes', src=enum(attrs, ['#[regex(%s, priority = 3)] A,' % rust_str(pat), '#[regex(%s, priority = 2)] B,' % rust_str(ref)]),
+                            meta=dict(pair=(0, 1), pattern=pat, reference=ref)))
     # subpatterns made of (or containing) look-around assertions
     for (sub, shape) in [('$', 'ab(?&s0)'), ('(?-u:\\b)', '[a-z]+(?&s0)'), ('(?m:$)', 'a(?&s0)\\n?'), ('x(?-u:\\B)', '(?&s0)y'), ('a|b$', 'c(?&s0)'),
                          ('(?-u:\\b{end})|-', '[a-z]+(?&s0)')]:
@@ -199,6 +207,18 @@ def fam_c08(R, n):
             leaves = [(False, p_, pr_) for p_, pr_ in zip(trip, prs)]
             vs = ['#[regex(%s, priority = %d)] V%d,' % (rust_str(p_), pr_, j) for j, (_, p_, pr_) in enumerate(leaves)]
             out.append(dict(family='c08-enum', src=enum([], vs), meta=dict(leaves=leaves)))
+    # enumerated: every look-around pattern of the pool against companions that match the same text and may go on
+    # (the tie then exists only in some following contexts, and the ambiguous DFA state may still have outgoing edges)
+    companions = ['a', 'a[a-z]*', 'a[a-zA-Z0-9_]*', 'ab', 'a+', '[a-z]+', 'a[a-z0-9_]{2,}', 'a-', 'a\\n?']
+    for lp in POOL8L:
+        for cp in companions:
+            if lp == cp:
+                continue
+            for order in (0, 1):
+                pair = (lp, cp) if order == 0 else (cp, lp)
+                leaves = [(False, pair[0], 4), (False, pair[1], 4)]
+                vs = ['#[regex(%s, priority = 4)] V%d,' % (rust_str(p_), j) for j, p_ in enumerate(pair)]
+                out.append(dict(family='c08-look-enum', src=enum([], vs), meta=dict(leaves=leaves)))
     # look-around patterns: two patterns may tie only in some contexts (end of input, before a non-word byte, ...)
     for i in range(max(6, n // 3)):
         k = R.choice([2, 2, 3, 3, 4])
